@@ -35,6 +35,7 @@ type schedExec struct {
 	done    map[string]bool
 	lastRan string
 	hang    string
+	outcome string // set by the scenario's end oracle: what this execution observably did
 }
 
 // activity is a harness-started goroutine.
@@ -251,6 +252,7 @@ func runSchedule(t *testing.T, sc schedScenario, prefix []int, maxPoints int) (r
 		if atEnd != nil {
 			res.viol = atEnd()
 		}
+		res.out = x.outcome
 	})
 	return
 }
@@ -323,6 +325,9 @@ func init() {
 			if !traces[tk] {
 				traces[tk] = true
 				info.States++
+			}
+			if r.out != "" && len(outcomes) < 5000 {
+				outcomes[r.out] = true
 			}
 			if len(info.Samples) < 2 {
 				info.Samples = append(info.Samples, map[string]interface{}{"schedule": r.trace, "choices": choicesOf(r.points)})
